@@ -10,7 +10,7 @@ from geom_common import fmt_vecs
 
 THEOREMS = ["Matid.Props.Assemble." + t for t in (
     "rule_ok", "keep_iff", "unseen_group_never_kept", "rint_near", "rint_add_int", "moved_copy_near_reference", "moved_copy_image_invariant",
-    "average_near_reference", "seed_group_tracked")]
+    "average_near_reference", "seed_group_tracked", "atoms_are_the_kept_groups")]
 
 
 def _nodes(l):
